@@ -494,7 +494,21 @@ func (r *CheckRun) validate() (problems []string) {
 						}
 					}
 				}
-				if msg := compareNative(j.path, j.out, loose); msg != "" {
+				msg := compareNative(j.path, j.out, loose)
+				if msg != "" && j.schedOps != nil {
+					// parking goroutines can let the bubble's clock run ahead of the engine's
+					// timing model; the assertions have to hold under Go's own scheduler anyway
+					again := &replayJob{hr: j.hr, path: j.path}
+					if err := r.runNative(dir, []*replayJob{again}); err == nil && again.out != nil {
+						if m2 := compareNative(j.path, again.out, true); m2 == "" {
+							j.hr.Notes = append(j.hr.Notes, "a sequenced validation run disagreed ("+firstLines(msg, 1)+"); the same witness under Go's scheduler agrees")
+							msg = ""
+						} else {
+							msg = m2 + " (also under Go's scheduler)"
+						}
+					}
+				}
+				if msg != "" {
 					j.hr.ValidationMismatch = append(j.hr.ValidationMismatch, msg+" [witness "+witnessString(j.path)+"]")
 				} else {
 					j.hr.Validated++
@@ -502,6 +516,11 @@ func (r *CheckRun) validate() (problems []string) {
 				continue
 			}
 			ok, detail := violationReproduced(j.path, j.out)
+			if ok && j.schedOps != nil && j.out.SchedReport != "" {
+				// reproduced, but the run left the engine's schedule: only a run under Go's
+				// own scheduler counts then
+				ok, detail = false, "sequenced run left the schedule ("+j.out.SchedReport+")"
+			}
 			if !ok && j.hr.Cfg.MapOrderIn != "" {
 				// the counterexample depends on Go's (random) map iteration order: the
 				// native run is repeated a few times
